@@ -44,8 +44,9 @@ Proof.
   split; [apply Forall2_rev, Forall2_firstn, F|apply Forall2_skipn, F].
 Qed.
 
-Definition proved_instr (i : instr) : bool :=
-  match i with IOverlay _ _ | IPadLR _ _ => false | _ => true end.
+(* every instruction has a simulation lemma; kept as a definition so that the step lemma
+   names its hypothesis *)
+Definition proved_instr (i : instr) : bool := true.
 
 Lemma pop_n_len {A} n (l : list A) vs r : pop_n n l = Ok (vs, r) -> zlen vs = n.
 Proof.
@@ -97,6 +98,18 @@ Proof.
     destruct (pop_n_rel _ _ _ _ _ _ Fs E) as (vs & rest & -> & Rvs & Rrest).
     destruct (canvas_join_rel vs gvs cols Rvs) as (c & -> & Rc); [symmetry; eapply pop_n_len; eauto|lia|assumption|].
     eexists; split; [reflexivity|]. split; cbn [stack env gstack genv]; [constructor; assumption|assumption].
+  - (* IOverlay *)
+    inversion Fs as [|vt gvt vs1 gvs1 Rt Rs1 Es Eg]; [discriminate|]. inversion Rs1 as [|vb gvb vs2 gvs2 Rb Rs2 Es2 Eg2]; [discriminate|].
+    destruct (negb (gleaf gvt) && (0 <=? left) && (0 <=? top) && (left + gwidth (gg gvt) <=? gwidth (gg gvb))
+              && (top + gheight (gg gvt) <=? gheight (gg gvb))) eqn:E; [|discriminate].
+    intros [= <-].
+    repeat (apply andb_prop in E as [E ?]).
+    assert (gleaf gvt = false) as Hlf by (destruct (gleaf gvt); [discriminate|reflexivity]).
+    destruct (canvas_overlay_rel vt vb gvt gvb left top Rt Rb Hlf) as (c & -> & Rc); [lia|lia|lia|lia|].
+    eexists; split; [reflexivity|]. split; cbn [stack env gstack genv]; [constructor; assumption|assumption].
+  - (* IPadLR *)
+    apply on_comp_sim; [assumption|]. intros c gv gv' Rv Hf. destruct (0 <? gwidth (gg gv) + Z.min l 0 + Z.min r 0) eqn:E; [|discriminate].
+    intros [= <-]. apply comp_pad_trim_left_right_rel; [assumption|assumption|lia].
   - (* IPadTB *)
     apply on_comp_sim; [assumption|]. intros c gv gv' Rv Hf. destruct (0 <? gheight (gg gv) + Z.min t 0 + Z.min b 0) eqn:E; [|discriminate].
     intros [= <-]. apply comp_pad_trim_top_bottom_rel; [assumption|assumption|lia].
